@@ -1,2 +1,26 @@
-(* placeholder until the theorems are integrated *)
-From SE Require Import Model.System.
+(* C02 - No network input can crash or stall the exporter.
+   Models: Model/Line.v (parser), Model/Listener.v (framing), Model/System.v (pipeline).
+   "Stall": every model function is total (structural recursion, no fuel); the amount of work per
+   line is bounded by the number of events, which a tiny sampling rate can make huge - that is the
+   known finding sampling-rate-amplification, not excluded by any theorem here. *)
+From SE Require Import Spec.PipelineSpec Spec.LineSpec Proofs.PipelineProofs Proofs.LineSyntaxProofs.
+
+(* no byte string makes the line parser panic, under any flag set *)
+Theorem C02_parser_no_panic : stmt_l2e_no_panic.
+Proof. exact l2e_no_panic_ok. Qed.
+Print Assumptions C02_parser_no_panic.
+
+(* no history of lines, reloads (only configurations that load are installed), clock advances,
+   sweeps and scrapes makes any pipeline step panic - for every cache behaviour whatsoever *)
+Theorem C02_pipeline_no_panic : forall pf uni_word re_match heur_bt re_compiles CS c_get c_add c_reset builtins,
+  stmt_pipeline_no_panic pf uni_word re_match heur_bt re_compiles CS c_get c_add c_reset builtins.
+Proof. exact pipeline_no_panic_ok. Qed.
+Print Assumptions C02_pipeline_no_panic.
+
+(* lines are independent: a line is a pure function of its own bytes (line_to_events takes no
+   state), so a hostile line cannot affect how a later line is parsed; what it can do to the
+   exporter state is bounded by C03 (scrapes keep succeeding) and C08 (conflicts are isolated). *)
+
+Example C02_former_crash_inputs :
+  (forall pf, line_to_events pf all_on [x61; x5d; x62; x5b; x63; x3a; x31; x7c; x63] <> Panic).
+Proof. intros pf. apply l2e_no_panic_ok. Qed.
